@@ -376,12 +376,30 @@ Definition ref_failed (qs : list osp) (it : item) : bool :=
   | None => snd it
   end.
 
+(** Staleness read directly off the object, without evaluating any probe: some ObjectSetProbe
+    selects the object and either status.observedGeneration is an integer other than
+    metadata.generation, or the ObjectSetProbe has a condition probe of a type of which SOME entry of
+    status.conditions (wherever it is in the list) carries an integer observedGeneration other than
+    metadata.generation. *)
+Definition stale_selected (qs : list osp) (o : json) : bool :=
+  existsb (fun q => selects q o
+                    && (og_stale o
+                        || existsb (fun l => match l with LCond t _ => cond_stale_any o t | _ => false end)
+                                   (leaves (o_probes q)))) qs.
+
+Definition stale_item_ok (qs : list osp) (it : item) : bool :=
+  match fst (fst it) with
+  | Some o => implb (stale_selected qs o) (snd it)
+  | None => true
+  end.
+
 Definition pass_clauses (c : pass_obs) : list bool :=
   let '(qs, items, n, zero) := c in
   let ex := map (ref_failed qs) items in
   [list_eqb Bool.eqb (map (fun it : item => snd it) items) ex;
    N.eqb n (count_true ex);
-   Bool.eqb zero (result_is_zero ex)].
+   Bool.eqb zero (result_is_zero ex);
+   forallb (stale_item_ok qs) items].      (* a selected object with a stale status / stale entry of a probed condition type is recorded *)
 
 Definition monitor_pass (c : pass_obs) : bool := forallb (fun b : bool => b) (pass_clauses c).
 
@@ -394,7 +412,8 @@ Definition judge_history (h : list pass_obs) : bool * bool * list bool :=
   (forallb agree_pass h, forallb monitor_pass h,
    [forallb (fun c => nth 0 (pass_clauses c) true) h;
     forallb (fun c => nth 1 (pass_clauses c) true) h;
-    forallb (fun c => nth 2 (pass_clauses c) true) h]).
+    forallb (fun c => nth 2 (pass_clauses c) true) h;
+    forallb (fun c => nth 3 (pass_clauses c) true) h]).
 
 Lemma model_failed_ref qs o tbl b : model_failed qs o tbl = Some b -> b = ref_failed qs (o, tbl, b).
 Proof.
@@ -405,6 +424,29 @@ Qed.
 
 Lemma bool_list_eqb_refl l : list_eqb Bool.eqb l l = true.
 Proof. induction l as [|b l IH]; cbn; [reflexivity|]. now rewrite eqb_reflx, IH. Qed.
+
+Lemma stale_passes_one tbl q o :
+  og_stale o || existsb (fun l => match l with LCond t _ => cond_stale_any o t | _ => false end) (leaves (o_probes q)) = true ->
+  passes_one (ce_of tbl) q o = false.
+Proof.
+  intros H. apply orb_true_iff in H. destruct H as [H|H].
+  - unfold passes_one. now rewrite H.
+  - apply existsb_exists in H. destruct H as (l & Hl & Est). destruct l as [t s| |]; try discriminate.
+    apply (leaf_fails_passes_one tbl q o (LCond t s) Hl).
+    unfold cond_stale_any in Est. destruct (conditions_of o) as [cs|] eqn:Ec; [|discriminate].
+    cbn. now rewrite (cond_probe_stale o t s cs Ec Est).
+Qed.
+
+Lemma stale_items_ok qs items :
+  map (ref_failed qs) items = map (fun it : item => snd it) items -> forallb (stale_item_ok qs) items = true.
+Proof.
+  induction items as [|[[o tbl] f] items IH]; cbn; [reflexivity|]. intros H. injection H as H1 H2.
+  rewrite (IH H2), andb_true_r. unfold stale_item_ok. cbn [fst snd]. destruct o as [o|]; [|reflexivity].
+  destruct (stale_selected qs o) eqn:Es; [|reflexivity]. cbn. rewrite <- H1. unfold ref_failed. cbn [fst snd].
+  unfold stale_selected in Es. apply existsb_exists in Es. destruct Es as (q & Hq & Hs).
+  apply andb_true_iff in Hs. destruct Hs as [Hsel Hst]. apply existsb_exists. exists q. split; [assumption|].
+  now rewrite Hsel, (stale_passes_one tbl q o Hst).
+Qed.
 
 (** The monitor accepts every pass of the model (whenever Parse yields a prober at all). *)
 Theorem monitor_pass_sound qs objs c : model_pass qs objs = Some c -> monitor_pass c = true.
@@ -419,7 +461,8 @@ Proof.
     apply andb_true_iff in Eall. destruct Eall as [E1 E2]. destruct (IH E2) as [IH1 IH2]. rewrite IH1, IH2.
     split; [|reflexivity]. f_equal.
     destruct (model_failed qs o tbl) as [b|] eqn:Em; [|discriminate]. symmetry. now apply model_failed_ref. }
-  destruct Hex as [-> ->]. cbn. now rewrite bool_list_eqb_refl, N.eqb_refl, eqb_reflx.
+  pose proof (stale_items_ok qs items) as Hst. destruct Hex as [E1 E2]. rewrite E1, E2 in Hst.
+  rewrite (Hst eq_refl), E1, E2. cbn. now rewrite bool_list_eqb_refl, N.eqb_refl, eqb_reflx.
 Qed.
 
 (** ** Witnesses for the non-vacuity examples in props/C17.v *)
@@ -485,3 +528,21 @@ Lemma ex_monitor_pass_rejects :
   model_pass ex_probes [(Some (ex_object 2 1), ex_tbl)] = Some (ex_probes, [(Some (ex_object 2 1), ex_tbl, true)], 1%N, false)
   /\ monitor_pass (ex_probes, [(Some (ex_object 2 1), ex_tbl, false)], 0%N, true) = false.
 Proof. split; reflexivity. Qed.
+
+(** [Progressing; Available current; Available stale] with generation 4: the shape a pre-scan that
+    stops at the first entry of another type lets pass. *)
+Definition sep_dup_object : json :=
+  JObj [("apiVersion", JStr "v1"); ("kind", JStr "ConfigMap");
+        ("metadata", JObj [("generation", JNum 4)]);
+        ("status", JObj [("conditions", JArr [
+           JObj [("type", JStr "Progressing"); ("status", JStr "True")];
+           JObj [("type", JStr "Available"); ("status", JStr "True"); ("observedGeneration", JNum 4)];
+           JObj [("type", JStr "Available"); ("status", JStr "False"); ("observedGeneration", JNum 3)]])])].
+
+Lemma ex_separated_duplicate_rejected :
+  stale_selected dup_witness_probes sep_dup_object = true
+  /\ nth 3 (pass_clauses (dup_witness_probes, [(Some sep_dup_object, [], false)], 0%N, true)) true = false
+  /\ nth 5 (clauses (dup_witness_probes, sep_dup_object, [], ORun true [] [(true, [])] true)) true = false
+  /\ model_pass dup_witness_probes [(Some sep_dup_object, [])]
+     = Some (dup_witness_probes, [(Some sep_dup_object, [], true)], 1%N, false).
+Proof. repeat split; reflexivity. Qed.
